@@ -66,7 +66,7 @@ CHECKS = {
    "DESIGN.md §6 C07, §2 E3"),
  "C08": ("model_checking",
    "stateless model checking of the implementation (controlled scheduler + DFS) over a bounded-exhaustive space of here-document programs",
-   "45 host templates with 1-3 here-document sites (simple command, pipes, lists, every compound form, function bodies, compound redirections, inside $( ) and backquotes, before && / | + newline, numbered, several on one or on different lines) × {<<, <<- with 0-3 tabs before the delimiter line} × 6 delimiter quotings (E, 'E', "E", E\\F, E"", ''E) × bodies from a 17-line menu (empty lines, delimiter look-alikes, tab-indented lines, $v, $(c), `c`, backslashes, lines ending in the delimiter text after an expansion): ≈ 5·10^4 programs in the quick tier, each run under ALL schedules of the lexer/parser pair (one site) or all schedules with ≤ 1 preemption (more sites, which contains both extreme schedules). Per redirection, in operator order: the printed body is byte-identical to the body written, Delim is the delimiter line, the body is split into expansions iff no part of the delimiter was quoted; the same under every schedule; no deadlock on the here-document queue. Many-site programs (4-12 here-documents on one line, per group line, per pipeline stage). Second phase: every generator sentence that carries a here-document (D0, D1, DH; thorough D2, DC) in one-line and multi-line layout under all schedules with ≤ 1 preemption, judged against the grammar model's AST.",
+   "45 host templates with 1-3 here-document sites (simple command, pipes, lists, every compound form, function bodies, compound redirections, inside $( ) and backquotes, before && / | + newline, numbered, several on one or on different lines) × {<<, <<- with 0-3 tabs before the delimiter line} × 6 delimiter quotings (E, 'E', \"E\", E\\F, E\"\", ''E) × bodies from a 17-line menu (empty lines, delimiter look-alikes, tab-indented lines, $v, $(c), `c`, backslashes, lines ending in the delimiter text after an expansion): ≈ 5·10^4 programs in the quick tier, each run under ALL schedules of the lexer/parser pair (one site) or all schedules with ≤ 1 preemption (more sites, which contains both extreme schedules). Per redirection, in operator order: the printed body is byte-identical to the body written, Delim is the delimiter line, the body is split into expansions iff no part of the delimiter was quoted; the same under every schedule; no deadlock on the here-document queue. Many-site programs (4-12 here-documents on one line, per group line, per pipeline stage). Second phase: every generator sentence that carries a here-document (D0, D1, DH; thorough D2, DC) in one-line and multi-line layout under all schedules with ≤ 1 preemption, judged against the grammar model's AST.",
    "Backslash-newline inside bodies is outside the alphabet; scheduler assumptions as for C06.",
    "DESIGN.md §6 C08, §2 E2"),
  "C09": ("model_checking",
